@@ -220,12 +220,12 @@ func (g *gen) blockRawText() string {
 			lb.WriteString(rapid.SampledFrom(blockPieces).Draw(g.t, "blockpiece"))
 		}
 		l := strings.Trim(lb.String(), " ")
-		l = strings.ReplaceAll(l, `\"""`, "\x01")        // keep the escape
-		for strings.Contains(l, `"""`) { // never a bare delimiter
+		l = strings.ReplaceAll(l, `\"""`, "\x01") // keep the escape
+		for strings.Contains(l, `"""`) {          // never a bare delimiter
 			l = strings.ReplaceAll(l, `"""`, `""x"`)
 		}
-		l = strings.ReplaceAll(l, "\x01\"", "\x01x\"")    // no quote directly after the escape (recorded class)
-		l = strings.ReplaceAll(l, "\\\x01", "\\x\x01")    // no backslash directly before the escape (stated exclusion, NOTES.md)
+		l = strings.ReplaceAll(l, "\x01\"", "\x01x\"") // no quote directly after the escape (recorded class)
+		l = strings.ReplaceAll(l, "\\\x01", "\\x\x01") // no backslash directly before the escape (stated exclusion, NOTES.md)
 		l = strings.ReplaceAll(l, "\x01", `\"""`)
 		if l == "" || strings.HasSuffix(l, `"`) || strings.HasSuffix(l, `\`) {
 			l += "x"
@@ -277,7 +277,9 @@ func (g *gen) blockRawText() string {
 		if g.chance(3, "blockquotehead") {
 			raw = rapid.SampledFrom([]string{`"" `, `" `, "\"\n", `"`}).Draw(g.t, "blockquotehead") + raw
 		} else {
-			raw += rapid.SampledFrom([]string{`" `, ` "" `, "\"\n", `\"""`, "x\\\"\"\"\n", "\\\n", "\\ "}).Draw(g.t, "blockquotetail")
+			// (line breaks rather than spaces behind the quote: trailing spaces would also put
+			// the literal into the C05-block-string-trim class)
+			raw += rapid.SampledFrom([]string{"\"\n", " \"\"\n", "\"\n\n", `\"""`, "x\\\"\"\"\n", "\\\n"}).Draw(g.t, "blockquotetail")
 		}
 	}
 	return raw
